@@ -390,6 +390,19 @@ def clause2_mutation(ctx, P, T):
                     freed = True
         if not freed:
             stale = v
+    # ... and an insertion is refused only after the duplicate scan: a key that is already in the table is overwritten whatever
+    # the fill of its bucket, so no path reports FULL before the scan over the home bucket's hop word has run out
+    early = None
+    nfull = 0
+    for v in Q.path_views(ctx, P, put):
+        if v.ret_const() != FULL:
+            continue
+        nfull += 1
+        if not v.has_atom(lambda a, p: a[0] == "cmp" and a[3] == ("const", 0) and a[2][0] == "phi" and Q._poleq(a, p)):
+            early = v
+    ctx.ob("C17.2 R-ORDER", put, "refused-only-after-the-duplicate-scan", early is None and nfull > 0,
+           "put() returns HASHTABLE_FULL on a path that has not finished the scan for the key in its home bucket: a put() under a key "
+           "that is already present is refused instead of replacing the value", witness=early.witness() if early else None)
     ctx.ob("C17.2 R-TYPESTATE", put, "refused-insertion-leaves-no-stale-slot", stale is None and ngive > 0,
            "put() returns HASHTABLE_FULL after find_closer_entry() without marking the slot it passed to the last call free again: "
            "after a successful displacement that slot holds a stale copy of the moved key, no lookup reaches it and every later probe "
